@@ -13,6 +13,7 @@
 import DDProofs.DddmpProofs
 import DDProofs.DddmpHeader
 import DDProofs.DddmpFormat
+import DDProofs.DddmpDecide
 import DDProofs.FindOrAdd
 import DDProofs.Reach
 import DDProofs.SwapDrivers
@@ -62,6 +63,32 @@ theorem dddmpWitness_wf : dddmpWitness.WF := by
     · exact ⟨⟨2, .num 0, 0, 1, -1⟩, by simp [dddmpWitness], rfl⟩
     · exact ⟨⟨3, .num 1, 1, 1, -1⟩, by simp [dddmpWitness], rfl⟩
 
+/-- non-trivial example files (one per mode): three support variables `x, y, z` written at the
+levels 2, 5, 0 of a manager with 6 variables (so the order `z < x < y` differs from the
+listing `x, y, z`, and `.permids` has gaps), indices `.ids = 4 7 1`; nodes
+`3 = y`, `4 = x ∨ ¬y` (a COMPLEMENTED else-edge to node 3), `2 = if z then [4] else [3]`,
+listed parent first and numbered against the order in which the loader rebuilds them;
+roots `2` and `-4` (a complemented root).  `lx ly lz` are the labels of the three
+variables in the mode `vi`; `ov` the optional `.orderedvarnames`. -/
+def dddmpExWith (vi : Int) (ov : Option (List Tok)) (lx ly lz : Tok) : DddmpFile := {
+  varinfo := some vi, nnodes := some 4, nvars := some 6, nsuppvars := some 3,
+  suppvarnames := some [.str "x", .str "y", .str "z"], orderedvarnames := ov,
+  ids := some [4, 7, 1], permids := some [2, 5, 0], nroots := some 2, rootids := some [2, -4],
+  nodes := [⟨2, lz, 2, 4, 3⟩, ⟨1, .str "T", 1, 0, 0⟩, ⟨4, lx, 0, 1, -3⟩, ⟨3, ly, 1, 1, -1⟩] }
+
+/-- the six variables of the writer, by level -/
+def dddmpExOv : List Tok := [.str "z", .str "w", .str "x", .str "q", .str "r", .str "y"]
+
+/-- `.varinfo 0`, names from `.suppvarnames` -/
+def dddmpChain : DddmpFile := dddmpExWith 0 none (.num 4) (.num 7) (.num 1)
+def dddmpEx1s : DddmpFile := dddmpExWith 1 none (.num 2) (.num 5) (.num 0)
+def dddmpEx0o : DddmpFile := dddmpExWith 0 (some dddmpExOv) (.num 4) (.num 7) (.num 1)
+def dddmpEx1o : DddmpFile := dddmpExWith 1 (some dddmpExOv) (.num 2) (.num 5) (.num 0)
+def dddmpEx3 : DddmpFile := dddmpExWith 3 (some dddmpExOv) (.str "x") (.str "y") (.str "z")
+
+theorem dddmpChain_wf : dddmpChain.WF := by decide
+theorem dddmpChain_headerOK : DddmpHeaderOK dddmpChain := by decide
+
 /-- C16: for a well-formed file — whatever numbering it uses for its nodes, with or without
 gaps in the levels, for each of the variable-identification modes 0, 1, 3 —
 `dd.dddmp.load` succeeds, the manager satisfies the invariant (hence is canonical, C02),
@@ -86,6 +113,10 @@ theorem C16_load_spec (f : DddmpFile) (hf : f.WF) :
   obtain ⟨i2p, levels, roots, _, hh, _⟩ := id hf
   have hL := h6 i2p levels roots hh
   exact ⟨m, umap, h1, h2, h3, h4, h5, ⟨h3, hL.order, hL.exact, hL.off, hL.ctx⟩, hL.sched, h7⟩
+
+example : ∃ m umap, loadDddmpU dddmpChain = .ok (m, umap) ∧ GoodState m (fun _ => 0) := by
+  obtain ⟨m, umap, h, -, -, -, -, hg, -⟩ := C16_load_spec dddmpChain dddmpChain_wf
+  exact ⟨m, umap, h, hg⟩
 
 /-- C16, the roots clause alone -/
 theorem C16_roots (f : DddmpFile) (hf : f.WF) :
@@ -118,6 +149,10 @@ theorem C16_load_good (f : DddmpFile) (hf : f.WF) :
   have hL := h6 i2p levels roots hh
   exact ⟨m, h2, ⟨h3, hL.order, hL.exact, hL.off, hL.ctx⟩, hL.sched, hL.fire, hL.cache, h7, h5, h6⟩
 
+example : ∃ m, loadDddmp dddmpChain = .ok m ∧ GoodState m (fun _ => 0) := by
+  obtain ⟨m, h, hg, -⟩ := C16_load_good dddmpChain dddmpChain_wf
+  exact ⟨m, h, hg⟩
+
 /-- the file's variables keep the relative order of their levels in the file (with
 `OrderOK` and `nvars = levels.length` this determines the order of the loaded manager) -/
 theorem C16_order_kept (f : DddmpFile) (hf : f.WF) :
@@ -134,6 +169,8 @@ theorem C16_order_kept (f : DddmpFile) (hf : f.WF) :
   · intro var k var' k' i i' hm hm' hi hi' hlt
     exact (hL _ _ _ hh).mono hm hm' hi hi' hlt
 
+example : dddmpChain.WF := dddmpChain_wf
+
 /-- with `.orderedvarnames` (distinct names): the order of the loaded manager IS that list -/
 theorem C16_order_ordered (f : DddmpFile) (hf : f.WF) (hH : DddmpHeaderOK f) {ov : List Tok}
     (ho : f.orderedvarnames = some ov) :
@@ -142,6 +179,9 @@ theorem C16_order_ordered (f : DddmpFile) (hf : f.WF) (hH : DddmpHeaderOK f) {ov
   obtain ⟨m, h, -, -, -, -, -, -, hL⟩ := C16_load_good f hf
   obtain ⟨i2p, levels, roots, _, hh, _⟩ := id hf
   exact ⟨m, h, (hL _ _ _ hh).of_ordered hh hH ho⟩
+
+example : dddmpEx0o.WF ∧ DddmpHeaderOK dddmpEx0o ∧ dddmpEx0o.orderedvarnames = some dddmpExOv := by
+  decide
 
 /-- without `.orderedvarnames`: `suppvarnames[j]` sits at the rank of `permids[j]` among the
 `.permids` — gaps closed, relative order kept -/
@@ -156,6 +196,31 @@ theorem C16_order_supp (f : DddmpFile) (hf : f.WF) (hH : DddmpHeaderOK f)
   obtain ⟨i2p, levels, roots, _, hh, _⟩ := id hf
   exact ⟨m, h, (hL _ _ _ hh).of_supp hh hH hv3 ho hs hp⟩
 
+/-- on the example: `z` (file level 0) gets level 0, `x` (2) level 1, `y` (5) level 2 -/
+example : ∃ m, loadDddmp dddmpChain = .ok m ∧ m.nvars = 3 ∧ m.tbl.vars["z"]? = some 0 ∧
+    m.tbl.vars["x"]? = some 1 ∧ m.tbl.vars["y"]? = some 2 := by
+  obtain ⟨m, h, hn, hr⟩ := C16_order_supp dddmpChain dddmpChain_wf dddmpChain_headerOK (by decide)
+    rfl (sv := [.str "x", .str "y", .str "z"]) rfl (permids := [2, 5, 0]) rfl
+  refine ⟨m, h, hn, ?_, ?_, ?_⟩
+  · obtain ⟨i, hi, hv, -⟩ := hr 2 (.str "z") 0 rfl rfl
+    have : i = 0 := by
+      have hs : sortInts [2, 5, 0] = [0, 2, 5] := by decide
+      rw [hs] at hi
+      rcases i with _ | _ | _ | i <;> simp_all
+    subst this; exact hv
+  · obtain ⟨i, hi, hv, -⟩ := hr 0 (.str "x") 2 rfl rfl
+    have : i = 1 := by
+      have hs : sortInts [2, 5, 0] = [0, 2, 5] := by decide
+      rw [hs] at hi
+      rcases i with _ | _ | _ | i <;> simp_all
+    subst this; exact hv
+  · obtain ⟨i, hi, hv, -⟩ := hr 1 (.str "y") 5 rfl rfl
+    have : i = 2 := by
+      have hs : sortInts [2, 5, 0] = [0, 2, 5] := by decide
+      rw [hs] at hi
+      rcases i with _ | _ | _ | i <;> simp_all
+    subst this; exact hv
+
 /-- C16 (chaining, every history): after a successful load EVERY guarded history of user
 operations (`UOp`: declarations, connectives, substitutions, quantification, `incref` /
 `decref`, collections — any arguments, accepted or rejected) leads to a good state again:
@@ -165,6 +230,16 @@ theorem C16_then_every_history (f : DddmpFile) (hf : f.WF) :
       GoodState (run ops ⟨m, fun _ => 0⟩).m (run ops ⟨m, fun _ => 0⟩).ext := by
   obtain ⟨m, h, hg, -⟩ := C16_load_good f hf
   exact ⟨m, h, fun ops hops => run_inv ops ⟨m, fun _ => 0⟩ hg hops⟩
+
+/-- non-vacuity: a guarded history on the loaded example (a declaration, a rejected call, a
+connective on numbers that are nodes there, a collection) -/
+example : ∃ m, loadDddmp dddmpChain = .ok m ∧
+    GoodState (run [.declare "w" none, .ite 99 1 1, .apply "and" 4 (some (-3)) none, .collectGarbage]
+      ⟨m, fun _ => 0⟩).m
+      (run [.declare "w" none, .ite 99 1 1, .apply "and" 4 (some (-3)) none, .collectGarbage]
+        ⟨m, fun _ => 0⟩).ext := by
+  obtain ⟨m, h, hr⟩ := C16_then_every_history dddmpChain dddmpChain_wf
+  exact ⟨m, h, hr _ ⟨trivial, trivial, trivial, trivial, trivial⟩⟩
 
 /-- the user's `incref` of every element of a list -/
 def holdOps (rs : List Int) : List UOp := rs.map .incref
@@ -229,6 +304,199 @@ theorem C16_hold_roots (f : DddmpFile) (hf : f.WF) :
   intro r hr
   rw [hro] at hr
   exact hpos r hr
+
+example : ∃ m, loadDddmp dddmpChain = .ok m ∧
+    ReorderInv (run (holdOps m.roots) ⟨m, fun _ => 0⟩).ext (run (holdOps m.roots) ⟨m, fun _ => 0⟩).m := by
+  obtain ⟨m, h, -, hr, -⟩ := C16_hold_roots dddmpChain dddmpChain_wf
+  exact ⟨m, h, hr⟩
+
+/-! ### the file's semantics read off the format: one composed statement per mode
+
+`evalFormat f α x` evaluates the node list with the DDDMP reading rule `dddmpNameOf` (header
+LINES only: `.varinfo`, `.ids`, `.permids`, `.orderedvarnames`, `.suppvarnames`); none of
+the loader's tables enters.  Hypotheses: `f.WF` (the file is accepted and its node list is
+consistent), `DddmpHeaderOK f` (the header entries that identify variables are distinct),
+and the mode.  Every statement includes complemented else-edges (a negative else-column) and
+signed root entries (`DddmpShannon.sign`). -/
+
+/-- C16 (format semantics, every mode with names): the roots of the loaded manager denote, by
+variable NAME, exactly the root entries of the file evaluated by the DDDMP rule; that
+evaluation obeys the Shannon rule on every listed line; the manager is a good state -/
+theorem C16_format (f : DddmpFile) (hf : f.WF) (hH : DddmpHeaderOK f) (hn : f.named = true) :
+    ∃ m, loadDddmp f = .ok m ∧ GoodState m (fun _ => 0) ∧
+      DddmpRootsDenoteBy (evalFormat f) f m ∧
+      DddmpShannon f (fun info var => dddmpNameOf f info = some var) (evalFormat f) ∧
+      ∀ α x, evalFile f α x = evalFormat f α x := by
+  obtain ⟨m, h, hg, -, -, -, -, hr, -⟩ := C16_load_good f hf
+  have e : evalFile f = evalFormat f := by
+    funext α x; exact evalFile_eq_evalFormat hf hH hn α x
+  refine ⟨m, h, hg, ?_, evalFormat_shannon hf hH hn, fun α x => evalFile_eq_evalFormat hf hH hn α x⟩
+  rw [← e]; exact (dddmpRootsDenote_iff f m).mp hr
+
+/-- C16, `.varinfo 3` (labels are names; `.orderedvarnames` lists the writer's variables by
+level): roots = the file's root entries, where the line labelled `var` is a node of the
+variable `var`; the order of the loaded manager is `.orderedvarnames` -/
+theorem C16_varinfo3 (f : DddmpFile) (hf : f.WF) (hH : DddmpHeaderOK f)
+    (hv : f.varinfo = some 3) {ov : List Tok} (ho : f.orderedvarnames = some ov) :
+    ∃ m, loadDddmp f = .ok m ∧ GoodState m (fun _ => 0) ∧
+      DddmpRootsDenoteBy (evalFormat f) f m ∧
+      DddmpShannon f (fun info var => info = var ∧ var ∈ ov) (evalFormat f) ∧
+      m.nvars = ov.length ∧ ∀ (k : Nat) (var : Tok), ov[k]? = some var →
+        m.tbl.vars[var.show]? = some k ∧ m.tbl.l2v[k]? = some var.show := by
+  have hn : f.named = true := by simp [DddmpFile.named, ho]
+  obtain ⟨m, h, hg, -, -, -, -, hr, hL⟩ := C16_load_good f hf
+  obtain ⟨i2p, levels, roots, _, hh, _⟩ := id hf
+  have e : evalFile f = evalFormat f := by
+    funext α x; exact evalFile_eq_evalFormat hf hH hn α x
+  refine ⟨m, h, hg, by rw [← e]; exact (dddmpRootsDenote_iff f m).mp hr,
+    (evalFormat_shannon hf hH hn).reading (dddmpNameOf_varinfo3 hv ho),
+    (hL _ _ _ hh).of_ordered hh hH ho⟩
+
+/-- C16, `.varinfo 0` with `.orderedvarnames`: the line labelled `ids[j]` is a node of the
+variable `orderedvarnames[permids[j]]`; the order of the loaded manager is `.orderedvarnames` -/
+theorem C16_varinfo0_ordered (f : DddmpFile) (hf : f.WF) (hH : DddmpHeaderOK f)
+    (hv : f.varinfo = some 0) {ids permids : List Int} (hi : f.ids = some ids)
+    (hp : f.permids = some permids) {ov : List Tok} (ho : f.orderedvarnames = some ov) :
+    ∃ m, loadDddmp f = .ok m ∧ GoodState m (fun _ => 0) ∧
+      DddmpRootsDenoteBy (evalFormat f) f m ∧
+      DddmpShannon f (fun info var => ∃ (j : Nat) (i : Int) (k : Nat), info = .num i ∧
+        ids[j]? = some i ∧ permids[j]? = some (k : Int) ∧ ov[k]? = some var) (evalFormat f) ∧
+      m.nvars = ov.length ∧ ∀ (k : Nat) (var : Tok), ov[k]? = some var →
+        m.tbl.vars[var.show]? = some k ∧ m.tbl.l2v[k]? = some var.show := by
+  have hn : f.named = true := by simp [DddmpFile.named, ho]
+  have hnd : ids.Nodup := by have := hH.ids hv; rw [hi] at this; exact this
+  obtain ⟨m, h, hg, -, -, -, -, hr, hL⟩ := C16_load_good f hf
+  obtain ⟨i2p, levels, roots, _, hh, _⟩ := id hf
+  have e : evalFile f = evalFormat f := by
+    funext α x; exact evalFile_eq_evalFormat hf hH hn α x
+  refine ⟨m, h, hg, by rw [← e]; exact (dddmpRootsDenote_iff f m).mp hr,
+    (evalFormat_shannon hf hH hn).reading (dddmpNameOf_varinfo0_ordered hv hi hp hnd ho),
+    (hL _ _ _ hh).of_ordered hh hH ho⟩
+
+/-- C16, `.varinfo 1` with `.orderedvarnames`: the line labelled with the level `k` (an entry
+of `.permids`) is a node of the variable `orderedvarnames[k]` -/
+theorem C16_varinfo1_ordered (f : DddmpFile) (hf : f.WF) (hH : DddmpHeaderOK f)
+    (hv : f.varinfo = some 1) {permids : List Int} (hp : f.permids = some permids)
+    {ov : List Tok} (ho : f.orderedvarnames = some ov) :
+    ∃ m, loadDddmp f = .ok m ∧ GoodState m (fun _ => 0) ∧
+      DddmpRootsDenoteBy (evalFormat f) f m ∧
+      DddmpShannon f (fun info var => ∃ k : Nat, info = .num (k : Int) ∧ (k : Int) ∈ permids ∧
+        ov[k]? = some var) (evalFormat f) ∧
+      m.nvars = ov.length ∧ ∀ (k : Nat) (var : Tok), ov[k]? = some var →
+        m.tbl.vars[var.show]? = some k ∧ m.tbl.l2v[k]? = some var.show := by
+  have hn : f.named = true := by simp [DddmpFile.named, ho]
+  have hnd : permids.Nodup := by
+    have := hH.permids (by rw [hv]; decide); rw [hp] at this; exact this
+  obtain ⟨m, h, hg, -, -, -, -, hr, hL⟩ := C16_load_good f hf
+  obtain ⟨i2p, levels, roots, _, hh, _⟩ := id hf
+  have e : evalFile f = evalFormat f := by
+    funext α x; exact evalFile_eq_evalFormat hf hH hn α x
+  refine ⟨m, h, hg, by rw [← e]; exact (dddmpRootsDenote_iff f m).mp hr,
+    (evalFormat_shannon hf hH hn).reading (dddmpNameOf_varinfo1_ordered hv hp hnd ho),
+    (hL _ _ _ hh).of_ordered hh hH ho⟩
+
+/-- C16, `.varinfo 0` without `.orderedvarnames`: the line labelled `ids[j]` is a node of the
+variable `suppvarnames[j]`; `suppvarnames[j]` gets the rank of `permids[j]` as its level -/
+theorem C16_varinfo0_supp (f : DddmpFile) (hf : f.WF) (hH : DddmpHeaderOK f)
+    (hv : f.varinfo = some 0) (ho : f.orderedvarnames = none) {ids permids : List Int}
+    (hi : f.ids = some ids) (hp : f.permids = some permids) {sv : List Tok}
+    (hs : f.suppvarnames = some sv) :
+    ∃ m, loadDddmp f = .ok m ∧ GoodState m (fun _ => 0) ∧
+      DddmpRootsDenoteBy (evalFormat f) f m ∧
+      DddmpShannon f (fun info var => ∃ (j : Nat) (i : Int), info = .num i ∧ ids[j]? = some i ∧
+        sv[j]? = some var) (evalFormat f) ∧
+      m.nvars = permids.length ∧
+      ∀ (j : Nat) (var : Tok) (k : Int), sv[j]? = some var → permids[j]? = some k →
+        ∃ i : Nat, (sortInts permids)[i]? = some k ∧ m.tbl.vars[var.show]? = some i ∧
+          m.tbl.l2v[i]? = some var.show := by
+  have hn : f.named = true := by simp [DddmpFile.named, hs]
+  have hnd : ids.Nodup := by have := hH.ids hv; rw [hi] at this; exact this
+  obtain ⟨m, h, hg, -, -, -, -, hr, hL⟩ := C16_load_good f hf
+  obtain ⟨i2p, levels, roots, _, hh, _⟩ := id hf
+  have e : evalFile f = evalFormat f := by
+    funext α x; exact evalFile_eq_evalFormat hf hH hn α x
+  refine ⟨m, h, hg, by rw [← e]; exact (dddmpRootsDenote_iff f m).mp hr,
+    (evalFormat_shannon hf hH hn).reading (dddmpNameOf_varinfo0_supp hv hi hnd ho hs),
+    (hL _ _ _ hh).of_supp hh hH (by rw [hv]; decide) ho hs hp⟩
+
+/-- C16, `.varinfo 1` without `.orderedvarnames`: the line labelled `permids[j]` is a node of
+the variable `suppvarnames[j]`; `suppvarnames[j]` gets the rank of `permids[j]` as its level -/
+theorem C16_varinfo1_supp (f : DddmpFile) (hf : f.WF) (hH : DddmpHeaderOK f)
+    (hv : f.varinfo = some 1) (ho : f.orderedvarnames = none) {permids : List Int}
+    (hp : f.permids = some permids) {sv : List Tok} (hs : f.suppvarnames = some sv) :
+    ∃ m, loadDddmp f = .ok m ∧ GoodState m (fun _ => 0) ∧
+      DddmpRootsDenoteBy (evalFormat f) f m ∧
+      DddmpShannon f (fun info var => ∃ (j : Nat) (k : Int), info = .num k ∧
+        permids[j]? = some k ∧ sv[j]? = some var) (evalFormat f) ∧
+      m.nvars = permids.length ∧
+      ∀ (j : Nat) (var : Tok) (k : Int), sv[j]? = some var → permids[j]? = some k →
+        ∃ i : Nat, (sortInts permids)[i]? = some k ∧ m.tbl.vars[var.show]? = some i ∧
+          m.tbl.l2v[i]? = some var.show := by
+  have hn : f.named = true := by simp [DddmpFile.named, hs]
+  have hnd : permids.Nodup := by
+    have := hH.permids (by rw [hv]; decide); rw [hp] at this; exact this
+  obtain ⟨m, h, hg, -, -, -, -, hr, hL⟩ := C16_load_good f hf
+  obtain ⟨i2p, levels, roots, _, hh, _⟩ := id hf
+  have e : evalFile f = evalFormat f := by
+    funext α x; exact evalFile_eq_evalFormat hf hH hn α x
+  refine ⟨m, h, hg, by rw [← e]; exact (dddmpRootsDenote_iff f m).mp hr,
+    (evalFormat_shannon hf hH hn).reading (dddmpNameOf_varinfo1_supp hv hp hnd ho hs),
+    (hL _ _ _ hh).of_supp hh hH (by rw [hv]; decide) ho hs hp⟩
+
+/-! non-vacuity of the five mode theorems: each example file meets the hypotheses, and on it
+the reading of the format names `z`, `x`, `y` for the three lines -/
+
+example : dddmpEx3.WF ∧ DddmpHeaderOK dddmpEx3 ∧ dddmpEx3.varinfo = some 3 := by decide
+example : dddmpEx0o.WF ∧ DddmpHeaderOK dddmpEx0o ∧ dddmpEx0o.varinfo = some 0 := by decide
+example : dddmpEx1o.WF ∧ DddmpHeaderOK dddmpEx1o ∧ dddmpEx1o.varinfo = some 1 := by decide
+example : dddmpChain.WF ∧ DddmpHeaderOK dddmpChain ∧ dddmpChain.varinfo = some 0 ∧
+    dddmpChain.orderedvarnames = none := by decide
+example : dddmpEx1s.WF ∧ DddmpHeaderOK dddmpEx1s ∧ dddmpEx1s.varinfo = some 1 ∧
+    dddmpEx1s.orderedvarnames = none := by decide
+
+example : [dddmpChain, dddmpEx1s, dddmpEx0o, dddmpEx1o, dddmpEx3].map
+      (fun f => f.nodes.map fun n => dddmpNameOf f n.info) =
+    List.replicate 5 [some (.str "z"), none, some (.str "x"), some (.str "y")] := by decide
+
+/-- on the `.varinfo 0` example: the loaded roots denote `if z then x ∨ ¬y else y` and
+`¬(x ∨ ¬y)`, for every assignment of the names (the composed statement, instantiated; the
+right-hand sides are evaluated on all 8 assignments of `x, y, z`) -/
+example : ∃ m, loadDddmp dddmpChain = .ok m ∧ GoodState m (fun _ => 0) ∧
+    (∃ r ∈ m.roots, ∀ α, den m.tbl r (asgOf m.tbl α) = evalFormat dddmpChain α 2) ∧
+    (∃ r ∈ m.roots, ∀ α, den m.tbl r (asgOf m.tbl α) = evalFormat dddmpChain α (-4)) ∧
+    ∀ x y z : Bool,
+      evalFormat dddmpChain (fun s => if s = "x" then x else if s = "y" then y else z) 2 =
+        (if z then (x || !y) else y) ∧
+      evalFormat dddmpChain (fun s => if s = "x" then x else if s = "y" then y else z) (-4) =
+        !(x || !y) := by
+  obtain ⟨m, h, hg, hr, -, -, -⟩ := C16_varinfo0_supp dddmpChain dddmpChain_wf dddmpChain_headerOK
+    rfl rfl (ids := [4, 7, 1]) rfl (permids := [2, 5, 0]) rfl
+    (sv := [.str "x", .str "y", .str "z"]) rfl
+  refine ⟨m, h, hg, ?_, ?_, by decide⟩
+  · obtain ⟨r, hrm, -, hd⟩ := hr.1 2 (by decide)
+    exact ⟨r, hrm, hd⟩
+  · obtain ⟨r, hrm, -, hd⟩ := hr.1 (-4) (by decide)
+    exact ⟨r, hrm, hd⟩
+
+/-- the accepted modes are exactly these: a well-formed file has `.varinfo` 0, 1 or 3, and
+`.varinfo 3` needs `.orderedvarnames` -/
+theorem C16_modes (f : DddmpFile) (hf : f.WF) :
+    f.varinfo = some 0 ∨ f.varinfo = some 1 ∨
+      (f.varinfo = some 3 ∧ ∃ ov, f.orderedvarnames = some ov) := by
+  obtain ⟨i2p, levels, roots, _, hh, _⟩ := hf
+  obtain ⟨ids, permids, _, _, _, _, hI, _, _⟩ := dddmpHeader_inv hh
+  obtain ⟨t, _, ht, _, _⟩ := dddmpInfo2permid_inv hI
+  unfold dddmpInfoTable at ht
+  split at ht
+  · next hv => exact Or.inl hv
+  · next hv => exact Or.inr (Or.inl hv)
+  · cases ht
+  · next hv =>
+    split at ht
+    · cases ht
+    · next ov ho => exact Or.inr (Or.inr ⟨hv, ov, ho⟩)
+  · cases ht
+  · cases ht
 
 /-- the assignment `a = true, b = false` -/
 def dddmpWitnessAsg : String → Bool := fun s => s == "a"
